@@ -810,3 +810,8 @@ CHECKS['C01']['props'] = CHECKS['C01']['props'] + ['ZanVerif.Props.C01HardState'
 CHECKS['C01']['gens'] = CHECKS['C01']['gens'] + ['HardState']
 CHECKS['C01']['level_text'] = CHECKS['C01']['level_text'] + (" VOTE DURABILITY (Props/C01HardState): over the regenerated isHardStateEqual / MustSync and the pinned hand-out of newReady: "
     "C01_changed_vote_is_persisted — a Ready whose vote differs from the previous hard state carries the hard state and demands a sync, whatever term and commit are.")
+
+# C20: the repaired reverse start fallback over a cursor the engine does not bound (Engine/IterFallback.lean)
+CHECKS['C20']['level_text'] = CHECKS['C20']['level_text'] + (" UNBOUNDED CURSOR (Engine/IterFallback, C20_iter_spec_unbounded_engine): the wrapper as repaired by 855ff6c "
+    "(start fallback SeekToFirst + Valid checking Max in reverse) over a cursor that ignores the bounds hands out exactly the specified keys for every sorted store and option record; "
+    "tie: the real wrapper runs over the harness's bounded AND unbounded reference cursor on every iter line and must agree (class wrapper-unbounded-cursor).")
